@@ -83,14 +83,16 @@ def rpms_roundtrip(sym, history):
     sym.check("second-dump-identical", text2 == text)
 
 
-def modules_roundtrip(sym, history):
+def modules_roundtrip(sym, history, share=False):
+    """share: the caller passes one and the same list object to every add call (its content as it is at that moment counts)"""
     m = Modules()
     fill_compose(sym, m)
     expected = {}          # the documented layout, built from the calls (independent of Modules.add)
+    shared = [sym.str("rpm_shared", 4), "x-0:1-1.noarch"]
     try:
         for step, (cell, mi, cat) in enumerate(history):
             variant, arch = CELLS[cell]
-            rpms = [sym.str("rpm%d" % step, 4), "x-0:1-1.noarch"]          # a module added twice lists this RPM twice: the list is kept as given
+            rpms = shared if share else [sym.str("rpm%d" % step, 4), "x-0:1-1.noarch"]          # a module added twice lists this RPM twice: the list is kept as given
             tag = sym.str("tag%d" % step, 4, minlen=1)
             mdpath = sym.str("mdpath%d" % step, 4, minlen=1)
             sym.assume(sym.not_(mdpath.startswith("/")))
@@ -101,6 +103,8 @@ def modules_roundtrip(sym, history):
             e["modulemd_path"][CATS[cat]] = mdpath
             e["rpms"] = e["rpms"] + list(rpms)
         sym.check("built-mapping-follows-the-calls", m.modules == expected)
+        if share:
+            sym.check("callers-list-untouched", len(shared) == 2)
         before = clone(m.modules)
         text = m.dumps()
     except (ValueError, TypeError):
@@ -115,15 +119,16 @@ def modules_roundtrip(sym, history):
     sym.check("second-dump-identical", text2 == text)
 
 
-def extra_roundtrip(sym, history):
+def extra_roundtrip(sym, history, share=False):
     m = ExtraFiles()
     fill_compose(sym, m)
     expected = {}          # the documented layout, built from the calls (independent of ExtraFiles.add)
+    shared = {"sha256": sym.str("sha_shared", 4)}
     try:
         for step, (cell, two) in enumerate(history):
             variant, arch = CELLS[cell]
-            cs = {"sha256": sym.str("sha%d" % step, 4)}
-            if two:
+            cs = shared if share else {"sha256": sym.str("sha%d" % step, 4)}
+            if two and not share:
                 cs["md5"] = sym.str("md5_%d" % step, 4)
             path = sym.str("file%d" % step, 4, minlen=1)
             size = sym.int("size%d" % step)
@@ -179,8 +184,12 @@ def _histories(kind, tier, seed):
 def jobs(tier, seed):
     out = []
     for kind, fn in (("rpms", "rpms_roundtrip"), ("modules", "modules_roundtrip"), ("extra", "extra_roundtrip")):
-        for hist in _histories(kind, tier, seed):
+        hs = _histories(kind, tier, seed)
+        for hist in hs:
             out.append({"harness": fn, "params": {"history": hist}})
+        if kind != "rpms":
+            for hist in hs[-3:]:          # the fixed histories again, the caller re-using one list / dict object for every call
+                out.append({"harness": fn, "params": {"history": hist, "share": True}})
     return out
 
 
